@@ -169,7 +169,10 @@ class Gen:
     def leaf(self, d, vals=None, trk=None, small=True):
         n = prod(d)
         if vals is None:
-            vals = [self.r.choice([-3, -2, -1, 1, 2, 3, F(1, 2), F(-3, 2)] if small else range(-9, 10)) for _ in range(n)]
+            pool = [-3, -2, -1, 1, 2, 3, F(1, 2), F(-3, 2)] if small else list(range(-9, 10))
+            if self.r.random() < 0.2:
+                pool = [0, 0, -1, -2, 1]          # zeros and inactive relu units: adjoints that are entirely zero
+            vals = [self.r.choice(pool) for _ in range(n)]
         trk = self.r.random() < 0.7 if trk is None else trk
         h = self.new(d, trk)
         self.steps.append(leaf(h, d, vals, trk=trk))
@@ -578,6 +581,26 @@ def c17_cases(tier, seed):
                       {"op": "clear", "args": [3], "how": "replace"}]
             steps.append(backward(3, tensor(d, [1] * n)))
             cases.append(steps)
+    # degenerate coefficients: the zero seed and one-hot seeds (alpha = 0 or beta = 0 in the linearity relation):
+    # an adjoint that is entirely zero is still an adjoint - gradients are zeros, not absent, not ones
+    for d in ([2], [3], [2, 2]):
+        n = prod(d)
+        for o in ("relu", "mul", "csq", "sum"):
+            for hot in range(-1, n):
+                steps = [RESET, leaf(1, d, [(-1) ** k * (k + 1) for k in range(n)], trk=True),
+                         leaf(2, d, [k + 2 for k in range(n)], trk=True)]
+                if o == "relu":
+                    steps += [op("relu", [1], 3), op("mul", [3, 2], 4)]
+                elif o == "mul":
+                    steps += [op("mul", [1, 2], 3), op("add", [3, 1], 4)]
+                elif o == "csq":
+                    steps += [op("csq", [1], 3, bw=True), op("cmul", [3, 2], 4, bw=True)]
+                else:
+                    steps += [op("mul", [1, 2], 3), op("neg", [3], 4)]
+                steps.append(backward(4, tensor(d, [1 if k == hot else 0 for k in range(n)])))
+                steps += grads_of([1, 2, 3])
+                steps.append(backward(4))
+                cases.append(steps)
     # alpha*s1 + beta*s2 on random programs: three fresh instances of the same program
     n = 900 if tier == "thorough" else 150
     for _ in range(n):
@@ -594,4 +617,50 @@ def c17_cases(tier, seed):
         al, be = rnd.choice([2, -1, F(1, 2), 3]), rnd.choice([1, -3, F(1, 4)])
         for sd in (s1, s2, [al * x + be * y for x, y in zip(s1, s2)]):
             cases.append(g.steps + [backward(root, tensor(d, sd))])
+    return cases
+
+
+# ---------------------------------------------------------------------------------------------
+# programs transcribed from the repository's README / unit tests (suite-derived traces): the same graphs,
+# but every value, flag and gradient of every handle is validated at every step, not a few hand-computed numbers
+def suite_derived_cases():
+    cases = []
+    # README / module doc: data-dependent control flow over ten iterations
+    for (a0, b0, thr) in ((5, 2, 50), (3, 2, 20), (2, -3, 5), (F(1, 2), 4, 3)):
+        steps = [RESET, leaf(1, [1], [a0], trk=True), leaf(2, [1], [b0], trk=True), leaf(3, [1], [0], trk=True)]
+        c, h = 3, 10
+        for _ in range(10):
+            steps.append(op("mul", [1, 2], h))
+            steps.append(op("add", [c, h], h + 1))
+            steps.append({"op": "cmp", "args": [h + 1], "k": 0, "thr": sc(thr)})
+            steps.append(dict(op("mul", [h + 1, 1], h + 2), when=True))
+            steps.append(dict({"op": "clone", "args": [h + 1], "res": h + 2}, when=False))
+            steps += [{"op": "drop", "args": [h]}, {"op": "drop", "args": [h + 1]}]
+            if c != 3:
+                steps.append({"op": "drop", "args": [c]})
+            c = h + 2
+            h += 3
+        steps.append(backward(c))
+        steps += grads_of([1, 2, 3, c])
+        cases.append(steps)
+    # test_backward_continue / test_propagate_continue: extend a graph after a pass and differentiate again
+    steps = [RESET, leaf(1, [1], [5], trk=True), leaf(2, [1], [2], trk=True), op("mul", [1, 2], 3), op("add", [3, 1], 4),
+             backward(4), op("mul", [4, 2], 5), backward(5), backward(4), {"op": "clear", "args": [1], "how": "replace"},
+             op("add", [5, 4], 6), backward(6, tensor([1], [3]))]
+    cases.append(steps)
+    # test_backward_intermediate / test_backward_drop / test_consumers_drop
+    steps = [RESET, leaf(1, [3], [1, 2, 3], trk=True), op("mul", [1, 1], 2), op("mul", [1, 1], 3), {"op": "drop", "args": [2]},
+             backward(3), op("mul", [3, 1], 4), op("add", [4, 3], 5), {"op": "drop", "args": [4]}, backward(3), backward(5)]
+    cases.append(steps)
+    # test_backward_untracked(_both/_clone)
+    for t1, t2 in ((False, True), (False, False), (True, False)):
+        steps = [RESET, leaf(1, [3], [1, 2, 3], trk=t1), leaf(2, [3], [3, 2, 1], trk=t2), op("mul", [1, 2], 3),
+                 {"op": "clone", "args": [1], "res": 4}, {"op": "tracked", "args": [4]}, op("mul", [4, 3], 5),
+                 backward(5), backward(3)]
+        cases.append(steps)
+    # dense-layer shaped matmul with bias (test_matmul_broadcast_dense), batched
+    steps = [RESET, leaf(1, [2, 3], [1, 2, 3, 4, 5, 6], trk=False), leaf(2, [2, 3], [1, -1, 2, 0, 1, 1], trk=True),
+             leaf(3, [2], [F(1, 2), -1], trk=True), op("matmul", [1, 2, 3], 4, ta=False, tb=True), op("relu", [4], 5),
+             backward(5), op("sum", [5], 6, k=2), backward(6)]
+    cases.append(steps)
     return cases
